@@ -57,8 +57,9 @@ func (td TypeDeclaration) CompletionAtPos(ctx context.Context, pos hcl.Pos) []la
 			return allTypeDeclarationsAsCandidates(prefix, editRange)
 		}
 
-		// position inside paranthesis
-		if hcl.RangeBetween(eType.OpenParenRange, eType.CloseParenRange).ContainsPos(pos) {
+		// position inside paranthesis (behind the opening one)
+		if hcl.RangeBetween(eType.OpenParenRange, eType.CloseParenRange).ContainsPos(pos) &&
+			pos.Byte >= eType.OpenParenRange.End.Byte {
 			if isTypeNameWithElementOnly(eType.Name) {
 				if len(eType.Args) == 0 {
 					editRange := hcl.Range{
